@@ -27,6 +27,7 @@ type tplSeg struct {
 	Hole  string `json:",omitempty"` // hole program
 	Style int    `json:",omitempty"` // 0 literal, 1 {..}, 2 {% .. %}
 	NoVal bool   `json:",omitempty"` // hole ends in a block statement: contributes ''
+	Want  string `json:",omitempty"` // the text the hole contributes, when it is stated rather than obtained by evaluating the hole alone
 }
 
 var litSymbols = []string{"a", "'", "\"", "`", "\\", "{", "}", "%", "\n", "\r", "\t", "中", "\x1e", " "}
@@ -76,6 +77,11 @@ var holePrograms = []tplSeg{
 	{Hole: "i=0; while i<2 { i=i+1; if i { `{% if 1 { continue } %}` } }; i"},
 	// a single hole whose value comes out of a conditional (the template is a string whatever the hole yields)
 	{Hole: "1 ? 2"}, {Hole: "x ? 2 : 'x'"}, {Hole: "0 ? 1 : 2.5"}, {Hole: "x ?? 3"}, {Hole: "0 ? 1, 1 ? 3"}, {Hole: "1 ? 'q'"}, {Hole: "x && 5"}, {Hole: "0 || 'z'"},
+	// a string / number literal statement directly in front of a template that starts with a literal-only hole, and templates whose
+	// holes are all literals (what a compiler might fold)
+	// (their text is stated here: evaluating the hole program alone would go through the same compiler)
+	{Hole: "'a'; `{'b'}c`", Want: "bc"}, {Hole: "7; `{8}{'z'}`", Want: "8z"}, {Hole: "`{'p'}{'q'}`", Want: "pq"}, {Hole: "z = 'w'; `{'v'}{z}`", Want: "vw"}, {Hole: "'a' + `{'b'}c`", Want: "abc"}, {Hole: "`{1}` + `{2}`", Want: "12"}, {Hole: "[`{'m'}`, 'n'][0]", Want: "m"},
+	{Hole: "'s'", Want: "s"}, {Hole: "5", Want: "5"}, {Hole: "'a'; 'b'", Want: "b"},
 	// containers: the same array / dict OBJECT shown by several parts of one template, directly and inside another container
 	// (ya / yd are never mutated by another hole: a part is rendered when the template is assembled, so a container changed by a
 	// later hole legitimately shows its final state)
@@ -266,7 +272,12 @@ func c13Run(raw json.RawMessage) harn.Result {
 			if e := ref.Run(s.Hole); e != nil {
 				panic("hole program fails alone: " + s.Hole + ": " + e.Error())
 			}
-			if !s.NoVal {
+			if s.Want != "" {
+				if got := ref.Ret.ToString(); got != s.Want {
+					viol("C13:template", fmt.Sprintf("hole program %q evaluated alone gives %q, its text is %q", s.Hole, got, s.Want))
+				}
+				want.WriteString(s.Want)
+			} else if !s.NoVal {
 				want.WriteString(ref.Ret.ToString())
 			}
 		}
@@ -288,7 +299,7 @@ func c13Run(raw json.RawMessage) harn.Result {
 func init() {
 	harn.Register(&harn.Check{
 		ID:   "C13",
-		Rule: "literals: every text of <= 4 (thorough 5) symbols over {a ' \" ` \\ { } % LF CR TAB CJK 0x1E space} x 4 delimiter styles, spelled with the documented escapes (raw and escaped control characters), plus size ladders; must evaluate to exactly the text with empty rest. templates: every template of <= 2 (thorough 3) segments (6 literal texts, 44 hole programs x 2 hole styles incl. assignments, blocks, loops with break / continue in nested templates, value-less index / attribute / slice assignments, nested template, function definition, the same container object shown by several parts) x both template delimiters, 3-segment shapes, nesting ladders 1..24; result must equal the concatenation of literal texts and the string form of each hole's value obtained by evaluating the hole program alone, in order, on a second VM in the same state; variables must match too. Distinct by source text; out-of-domain (text, delimiter) pairs are counted separately and are not cases.",
+		Rule: "literals: every text of <= 4 (thorough 5) symbols over {a ' \" ` \\ { } % LF CR TAB CJK 0x1E space} x 4 delimiter styles, spelled with the documented escapes (raw and escaped control characters), plus size ladders; must evaluate to exactly the text with empty rest. templates: every template of <= 2 (thorough 3) segments (6 literal texts, 51 hole programs x 2 hole styles incl. assignments, blocks, loops with break / continue in nested templates, value-less index / attribute / slice assignments, nested template, function definition, the same container object shown by several parts) x both template delimiters, 3-segment shapes, nesting ladders 1..24; result must equal the concatenation of literal texts and the string form of each hole's value obtained by evaluating the hole program alone, in order, on a second VM in the same state; variables must match too. Distinct by source text; out-of-domain (text, delimiter) pairs are counted separately and are not cases.",
 		Enumerate: c13Enumerate,
 		Run:       c13Run,
 		Budget:    map[string]time.Duration{"quick": 400 * time.Second, "thorough": 40 * time.Minute},
